@@ -205,6 +205,9 @@ impl<'tcx> Cx<'tcx> {
         if let Some(i) = self.type_ix.get(&t) {
             return *i;
         }
+        if let ty::Pat(inner, _) = t.kind() {
+            return self.ty(*inner);
+        }
         // reserve slot first (recursive types through ADT defs are handled by adt table)
         let ix = self.types.len();
         self.types.push(String::new());
@@ -316,6 +319,15 @@ impl<'tcx> Cx<'tcx> {
             let mut fields = Vec::new();
             for f in v.fields.iter() {
                 let fty = tcx.type_of(f.did).instantiate_identity().skip_norm_wip();
+                let fty = std::panic::catch_unwind(std::panic::AssertUnwindSafe(|| {
+                    tcx.try_normalize_erasing_regions(
+                        TypingEnv::post_analysis(tcx, did),
+                        tcx.type_of(f.did).instantiate_identity(),
+                    )
+                }))
+                .ok()
+                .and_then(|r| r.ok())
+                .unwrap_or(fty);
                 let t = self.ty(fty);
                 let vis = if f.vis.is_public() { "pub" } else { "restricted" };
                 fields.push(format!(
